@@ -8,12 +8,14 @@ package harness
 
 import (
 	"bytes"
+	"crypto"
 	"crypto/rand"
 	"encoding/base64"
 	"encoding/json"
 	"encoding/xml"
 	"errors"
 	"fmt"
+	"io"
 	"net/http/httptest"
 	"strings"
 	"sync"
@@ -28,7 +30,7 @@ import (
 
 type lifeCall struct {
 	C       string `json:"c"`
-	F       bool   `json:"f"`
+	F       string `json:"f"` // none | enc | sig1 | sig2
 	Fired   bool   `json:"fired"`
 	Out     string `json:"out"`
 	Content string `json:"content"`
@@ -44,8 +46,8 @@ func (h lifeHist) sig() string {
 	var parts []string
 	for _, c := range h.Hist {
 		s := c.C
-		if c.F {
-			s += "!fault"
+		if c.F != "none" && c.F != "" {
+			s += "!" + c.F
 		}
 		parts = append(parts, s)
 	}
@@ -88,6 +90,44 @@ func (r *lifeFaultReader) disarm() bool { // reports whether the fault is still 
 	return pending
 }
 
+// lifeSigner is the IdP's external signer; the n-th Sign call of the goroutine that armed it fails once.
+type lifeSigner struct {
+	k     crypto.Signer
+	mu    *sync.Mutex
+	armed map[int64]*int
+}
+
+func (s lifeSigner) Public() crypto.PublicKey { return s.k.Public() }
+func (s lifeSigner) Sign(r io.Reader, digest []byte, opts crypto.SignerOpts) ([]byte, error) {
+	id := goid()
+	s.mu.Lock()
+	n := s.armed[id]
+	if n != nil {
+		*n--
+		if *n == 0 {
+			delete(s.armed, id)
+			s.mu.Unlock()
+			return nil, errors.New("injected: signer failure")
+		}
+	}
+	s.mu.Unlock()
+	return s.k.Sign(r, digest, opts)
+}
+func (s lifeSigner) arm(n int) {
+	s.mu.Lock()
+	s.armed[goid()] = &n
+	s.mu.Unlock()
+}
+func (s lifeSigner) disarm() bool {
+	s.mu.Lock()
+	defer s.mu.Unlock()
+	_, pending := s.armed[goid()]
+	delete(s.armed, goid())
+	return pending
+}
+
+var lifeSign = lifeSigner{mu: &sync.Mutex{}, armed: map[int64]*int{}}
+
 const (
 	lifePostACS     = "https://sp.example.com/life/acs"
 	lifeArtifactACS = "https://sp.example.com/life/artifact"
@@ -118,6 +158,9 @@ func lifeRequest(h lifeHist, rngKey string) (*saml.IdpAuthnRequest, c08Markers, 
 	}
 	session, m := c08Session(rng)
 	idp := wsNewIdP(c07BaseCfg, wsSPP{m: map[string]*saml.EntityDescriptor{spEntityID: reg}})
+	ls := lifeSign
+	ls.k = key("idp1").Key.(crypto.Signer)
+	idp.Key, idp.Signer = nil, ls // the key is held by an external signer (which can be made to fail)
 	reqID := fmt.Sprintf("id-%08x%08x", rng.Uint32(), rng.Uint32())
 	el := etree.NewElement("samlp:AuthnRequest")
 	el.CreateAttr("xmlns:samlp", nsProtocol)
@@ -166,7 +209,11 @@ type lifeObs struct {
 }
 
 func lifeClassify(xmlb []byte, extra []byte, m c08Markers) (string, []string) {
-	content := "enc"
+	// a response an earlier call emptied of its assertion carries nothing to protect or recover
+	content := "none"
+	if bytes.Contains(xmlb, []byte("EncryptedAssertion")) {
+		content = "enc"
+	}
 	if bytes.Contains(xmlb, []byte("<saml:Assertion")) {
 		content = "plain"
 	}
@@ -217,8 +264,13 @@ func lifeRun(t *testing.T, prop string) {
 			var trace []lifeObs
 			for ci, c := range h.Hist {
 				var o lifeObs
-				if c.F {
+				switch c.F {
+				case "enc":
 					fr.arm(pos)
+				case "sig1":
+					lifeSign.arm(1)
+				case "sig2":
+					lifeSign.arm(2)
 				}
 				p, msg := safely(func() {
 					switch c.C {
@@ -261,8 +313,11 @@ func lifeRun(t *testing.T, prop string) {
 						o.Content, o.Leaks = lifeClassify(xmlb, w.Body.Bytes(), m)
 					}
 				})
-				if c.F {
+				switch c.F {
+				case "enc":
 					o.Fired = !fr.disarm()
+				case "sig1", "sig2":
+					o.Fired = !lifeSign.disarm()
 				}
 				if o.Out != "form" {
 					o.Content = "none"
@@ -270,7 +325,7 @@ func lifeRun(t *testing.T, prop string) {
 				trace = append(trace, o)
 				key_ := fmt.Sprintf("%s:life:%s:call=%d:pos=%d", prop, sig, ci+1, pos)
 				replay := map[string]any{"history": h, "fault_position": pos, "call": ci + 1, "observed": trace}
-				rep.Eval(map[bool]string{true: "WithFault", false: "Plain"}[c.F], sig)
+				rep.Eval(map[bool]string{true: "WithFault", false: "Plain"}[c.F != "none" && c.F != ""], sig)
 				if p {
 					rep.DriftCase(key_+":panic", "the call panicked: "+strings.SplitN(msg, "\n", 2)[0], replay)
 					return
@@ -316,13 +371,43 @@ func lifeRun(t *testing.T, prop string) {
 						problem = fmt.Sprintf("Destination %q is not the selected location %q", d, want)
 					} else if irt := doc.Root().SelectAttrValue("InResponseTo", ""); irt != reqID {
 						problem = fmt.Sprintf("InResponseTo %q is not the request's ID %q", irt, reqID)
+					} else if so := idprespVerify(doc.Root(), key("idp1").Cert); !so.Present || so.RawErr != "" || so.DsigErr != "" {
+						problem = fmt.Sprintf("the emitted Response carries no enveloped signature that verifies under the IdP's certificate (present=%v: %s / %s)", so.Present, so.RawErr, so.DsigErr)
+					} else if o.Content == "plain" {
+						var assn *etree.Element
+						for _, ch := range doc.Root().ChildElements() {
+							if ch.Tag == "Assertion" {
+								assn = ch
+							}
+						}
+						if assn == nil {
+							problem = "no Assertion in the emitted Response"
+						} else if ao := idprespVerify(assn, key("idp1").Cert); !ao.Present || ao.RawErr != "" || ao.DsigErr != "" {
+							problem = fmt.Sprintf("the emitted Assertion carries no enveloped signature that verifies under the IdP's certificate (present=%v: %s / %s)", ao.Present, ao.RawErr, ao.DsigErr)
+						}
+					}
+					if problem == "" && o.Content == "none" {
+						problem = "the emitted Response carries no assertion at all"
+					}
+					if problem == "" && o.Content == "enc" {
+						// the assertion inside the EncryptedAssertion must carry its own verifying signature
+						if ed := doc.FindElement("//EncryptedAssertion/EncryptedData"); ed != nil {
+							if pt, derr := xmlenc.Decrypt(key("sp").Key, ed); derr == nil {
+								in := etree.NewDocument()
+								if perr := in.ReadFromBytes(pt); perr != nil || in.Root() == nil {
+									problem = "the decrypted content is not a well-formed element"
+								} else if ao := idprespVerify(in.Root(), key("idp1").Cert); !ao.Present || ao.RawErr != "" || ao.DsigErr != "" {
+									problem = fmt.Sprintf("the decrypted Assertion carries no enveloped signature that verifies under the IdP's certificate (present=%v: %s / %s)", ao.Present, ao.RawErr, ao.DsigErr)
+								}
+							}
+						}
 					}
 					if problem != "" {
 						rep.Violation(fmt.Sprintf("C06:life:%s:form", sig), fmt.Sprintf("call %d (%s): %s", ci+1, c.C, problem), replay)
 						return
 					}
 				}
-				if o.Out != c.Out || o.Content != c.Content || (c.F && o.Fired != c.Fired) {
+				if o.Out != c.Out || o.Content != c.Content || (c.F != "none" && c.F != "" && o.Fired != c.Fired) {
 					rep.DriftCase(key_, fmt.Sprintf("call %d (%s): real outcome %s/%s (fault fired %v: %s), model %s/%s (fired %v)", ci+1, c.C, o.Out, o.Content, o.Fired, o.Err, c.Out, c.Content, c.Fired), replay)
 					return
 				}
